@@ -1,10 +1,10 @@
 package props
 
 import (
-	"go/token"
 	"fmt"
 	"go/ast"
 	"go/constant"
+	"go/token"
 	"go/types"
 	"os"
 	"regexp"
@@ -39,6 +39,12 @@ func c12Roots(c *engine.Ctx) (entries []*engine.FuncInfo, ctl []*engine.FuncInfo
 			}
 		case strings.HasPrefix(n, "controller/v2/") && strings.HasSuffix(n, ".Reconciler.Reconcile"):
 			ctl = append(ctl, fi)
+		case strings.HasPrefix(n, "store/v2/") || strings.HasPrefix(n, "store/topo.") || strings.HasPrefix(n, "pluginregistry."):
+			// reached through the Store / registry interfaces, which the static call graph does not resolve:
+			// every method of the implementations counts as reachable from the controllers
+			if fi.Decl.Recv != nil {
+				ctl = append(ctl, fi)
+			}
 		}
 	}
 	sort.Slice(entries, func(i, j int) bool { return entries[i].Name() < entries[j].Name() })
@@ -129,6 +135,62 @@ func runC12(c *engine.Ctx, tier string) {
 	c12Regexp(c, d)
 	c12NaN(c, d)
 	c12WaitGroups(c, d)
+	c12ErrPathDeref(c, d)
+	c12Narrowing(c, d)
+	c12GoBeforeCheck(c)
+	// C12.9: cancelling a request (every Set/rollback/watch handler leaves its store watch that way) must
+	// not be able to panic the store: no close of a channel another goroutine may still send on
+	for _, rel := range storePkgs {
+		if rel != pkgStorePropV2 {
+			publishedChannelClosed(c, "C12.9/"+strings.TrimPrefix(rel, "pkg/store/"), rel, 1)
+		}
+	}
+}
+
+// c12ErrPathDeref: C12.8. A call that returns (value, error) returns a nil/zero value with a non-nil
+// error (the stores return (nil, NotFound)); dereferencing the value on the path where the error was
+// found non-nil panics. Decided per function on the enumerated paths: a deref site whose base is the
+// value result of call C, under a path condition err(C) != nil.
+func c12ErrPathDeref(c *engine.Ctx, d *c12Data) {
+	o := c.Custom("C12.8", "nil(value of a failed call)", "in the functions reachable from the RPC handlers and the controllers, the value result of a call is not dereferenced on a path that assumed that call's error non-nil",
+		"store and topo reads return (nil, NotFound); a reordering of the 'missing or present' and 'what to do' decisions dereferences the nil entry and the process dies in a controller, far from the request that caused it")
+	defer o.Done(50)
+	reported := map[string]bool{}
+	sites := map[string]bool{}
+	for _, p := range d.paths {
+		for i := range p.Events {
+			e := &p.Events[i]
+			if e.Kind != engine.EvSite || e.SiteKind != "deref" {
+				continue
+			}
+			x := stripVer(e.SiteX)
+			if !strings.Contains(x, "(") && !strings.HasPrefix(x, "§") {
+				continue
+			}
+			if k := c.P.Pos(e.Pos) + "|" + x; !sites[k] {
+				sites[k] = true
+				o.Site("")
+			}
+			o.Eval(1)
+			for _, l := range append(append([]engine.Lit{}, engine.CondsBefore(p, i)...), e.SiteLocal...) {
+				if !l.RNil || l.Mask != 5 || !strings.HasPrefix(l.L, "err(") || !strings.HasSuffix(l.L, ")") {
+					continue
+				}
+				call := l.L[4 : len(l.L)-1]
+				if x != call && !(strings.HasPrefix(x, call+".") && len(x) == len(call)+2 && x[len(x)-1] >= '0' && x[len(x)-1] <= '9') {
+					continue
+				}
+				key := p.Root.Name() + "|" + types.ExprString(e.SiteExpr) + " dereferenced on the error path of the call that produced it"
+				if reported[key] {
+					continue
+				}
+				reported[key] = true
+				o.Fail(&engine.Violation{Key: key, Pos: c.P.Pos(e.Pos), Func: p.Root.Name(),
+					Msg:   types.ExprString(e.SiteExpr) + " is the value returned by " + c.Render(call) + " and is dereferenced on a path where that call's error is non-nil: the value is nil there",
+					Found: engine.LitsString(engine.CondsBefore(p, i))})
+			}
+		}
+	}
 }
 
 func c12Dump(c *engine.Ctx, d *c12Data) {
@@ -933,9 +995,9 @@ func c12Tables(c *engine.Ctx, d *c12Data) {
 // ---- C12.4: regexp.MustCompile
 
 func c12Regexp(c *engine.Ctx, d *c12Data) {
-	o := c.Custom("C12.4", "K-dataflow(regexp text)", "regexp.MustCompile is reached only with a constant, or with text in which every non-constant part went through regexp.QuoteMeta (and, after that, only through replacements with constant arguments and constant format strings)",
+	o := c.Custom("C12.4", "K-dataflow(regexp text)", "in the functions reachable from the handlers regexp.MustCompile is reached only with text that has no non-constant part (request text is quoted with regexp.QuoteMeta and compiled with regexp.Compile, whose error is answered)",
 		"MustCompile panics on an expression that does not parse; the query text is request text")
-	defer o.Done(4)
+	defer o.Done(2)
 	seen := map[string]bool{}
 	for _, p := range d.paths {
 		for i := range p.Events {
@@ -953,6 +1015,11 @@ func c12Regexp(c *engine.Ctx, d *c12Data) {
 			if free := unquotedParts(arg); len(free) > 0 {
 				o.Fail(&engine.Violation{Key: p.Root.Name() + "|MustCompile on unquoted text", Pos: k, Func: p.Root.Name(),
 					Msg: "the expression " + arg + " contains " + strings.Join(free, ", ") + " outside regexp.QuoteMeta: request text that is not a valid expression panics"})
+			} else if free := unquotedParts(strings.ReplaceAll(arg, "regexp.QuoteMeta", "regexp.quoteMeta")); len(free) > 0 {
+				// quoted, but the size of the expression still follows the request: the regexp package refuses
+				// expressions above its size limit and MustCompile panics on that refusal too
+				o.Fail(&engine.Violation{Key: p.Root.Name() + "|MustCompile on request-sized text", Pos: k, Func: p.Root.Name(),
+					Msg: "the expression " + arg + " is built from " + strings.Join(free, ", ") + ": its size follows the request and regexp refuses expressions above its size limit (\"expression too large\"), which MustCompile turns into a panic; request text is compiled with regexp.Compile and the error answered"})
 			}
 		}
 	}
@@ -1255,6 +1322,182 @@ func c12WaitGroups(c *engine.Ctx, d *c12Data) {
 									Msg: ch.Name() + " is closed after " + w.Name() + ".Wait(), but a goroutine that sends on it does not hold " + w.Name() + ": it can send after the close"})
 							}
 						}
+					}
+				}
+			}
+		}
+	}
+}
+
+// c12Narrowing: C12.10. An integer field of a request message that is converted to a narrower integer
+// type keeps only its low bits: a range the callee relies on (a decimal64 precision of at most 18, used
+// as an exponent) is no longer implied by the type. Decided on the typed syntax of the reachable
+// functions: T(x) with T, typeof(x) integers, sizeof(T) < sizeof(typeof(x)), x a field (or element of a
+// field) of a protobuf message of the gnmi / onos-api packages — each such conversion must be inside an
+// if-statement (or after an early-return test) whose condition compares the same expression with a bound.
+func c12Narrowing(c *engine.Ctx, d *c12Data) {
+	o := c.Custom("C12.10", "range(narrowing of wire integers)", "every conversion of an integer field of a request message to a narrower integer type is dominated, in its function, by a comparison of that same field with a bound (an if whose body returns, or an enclosing if)",
+		"uint8(precision) of a uint32 wire field turns 320 into 64; the renderer divides by 10^precision in an int64, which is 0 from 64 on: integer divide by zero in the controller that validates the change")
+	defer o.Done(2)
+	sizes := types.SizesFor("gc", "amd64")
+	var names []string
+	for f := range d.reachAll {
+		names = append(names, f)
+	}
+	sort.Strings(names)
+	for _, name := range names {
+		fi := d.byFunc[name]
+		if fi == nil || fi.Decl == nil || fi.Decl.Body == nil {
+			continue
+		}
+		info := fi.Pkg.TypesInfo
+		wireField := func(e ast.Expr) bool {
+			for {
+				switch x := ast.Unparen(e).(type) {
+				case *ast.IndexExpr:
+					e = x.X
+					continue
+				case *ast.SelectorExpr:
+					sel := info.Selections[x]
+					if sel == nil || sel.Kind() != types.FieldVal {
+						return false
+					}
+					t := sel.Recv()
+					if p, ok := t.Underlying().(*types.Pointer); ok {
+						t = p.Elem()
+					}
+					if n, ok := t.(*types.Named); ok && n.Obj().Pkg() != nil {
+						pp := n.Obj().Pkg().Path()
+						return strings.HasPrefix(pp, "github.com/openconfig/gnmi/proto/") || strings.HasPrefix(pp, "github.com/onosproject/onos-api/go/")
+					}
+					return false
+				case *ast.CallExpr: // getter
+					if s2, ok := x.Fun.(*ast.SelectorExpr); ok && strings.HasPrefix(s2.Sel.Name, "Get") && len(x.Args) == 0 {
+						if sel := info.Selections[s2]; sel != nil {
+							t := sel.Recv()
+							if p, ok := t.Underlying().(*types.Pointer); ok {
+								t = p.Elem()
+							}
+							if n, ok := t.(*types.Named); ok && n.Obj().Pkg() != nil {
+								pp := n.Obj().Pkg().Path()
+								return strings.HasPrefix(pp, "github.com/openconfig/gnmi/proto/") || strings.HasPrefix(pp, "github.com/onosproject/onos-api/go/")
+							}
+						}
+					}
+					return false
+				}
+				return false
+			}
+		}
+		// comparisons of an expression (by text) with anything, anywhere in the function before the position
+		type cmp struct {
+			text string
+			pos  token.Pos
+		}
+		var cmps []cmp
+		ast.Inspect(fi.Decl.Body, func(n ast.Node) bool {
+			if b, ok := n.(*ast.BinaryExpr); ok {
+				switch b.Op {
+				case token.LSS, token.GTR, token.LEQ, token.GEQ:
+					cmps = append(cmps, cmp{types.ExprString(ast.Unparen(b.X)), b.Pos()}, cmp{types.ExprString(ast.Unparen(b.Y)), b.Pos()})
+				}
+			}
+			return true
+		})
+		ast.Inspect(fi.Decl.Body, func(n ast.Node) bool {
+			call, ok := n.(*ast.CallExpr)
+			if !ok || len(call.Args) != 1 {
+				return true
+			}
+			tv, ok := info.Types[call.Fun]
+			if !ok || !tv.IsType() {
+				return true
+			}
+			to, ok1 := tv.Type.Underlying().(*types.Basic)
+			at := info.TypeOf(call.Args[0])
+			if at == nil || !ok1 {
+				return true
+			}
+			from, ok2 := at.Underlying().(*types.Basic)
+			if !ok2 || to.Info()&types.IsInteger == 0 || from.Info()&types.IsInteger == 0 || info.Types[call.Args[0]].Value != nil {
+				return true
+			}
+			if sizes.Sizeof(to) >= sizes.Sizeof(from) || !wireField(call.Args[0]) {
+				return true
+			}
+			o.Site(c.P.Pos(call.Pos()) + " " + types.ExprString(call) + " in " + name)
+			o.Eval(1)
+			arg := types.ExprString(ast.Unparen(call.Args[0]))
+			for _, k := range cmps {
+				if k.text == arg && k.pos < call.Pos() {
+					return true
+				}
+			}
+			o.Fail(&engine.Violation{Key: name + "|" + types.ExprString(call) + " narrows a wire integer without a range test", Pos: c.P.Pos(call.Pos()), Func: name,
+				Msg: types.ExprString(call) + " converts the " + from.Name() + " request field " + arg + " to " + to.Name() + " and no comparison of " + arg + " with a bound precedes it in the function: values outside the range of " + to.Name() + " wrap"})
+			return true
+		})
+	}
+}
+
+// c12GoBeforeCheck: C12.11. A goroutine launched between a call and the first look at that call's
+// error runs also when the call failed — typically on the nil handle the call was meant to produce
+// (the southbound Subscribe starts its receive loop before it knows whether a stream exists: Recv on a
+// nil stream panics in a goroutine nobody can recover). Decided on the enumerated paths of the
+// southbound, northbound and store packages: no EvGo between a call whose error result is later tested
+// or returned on the same path and the first such test/return.
+func c12GoBeforeCheck(c *engine.Ctx) {
+	o := c.Custom("C12.11", "K-order(check before go)", "on no path is a goroutine started after a call whose error result is still unexamined and is examined (tested or returned) later on the same path",
+		"the goroutine runs whether or not the call succeeded; a panic in it takes the whole process down")
+	defer o.Done(5)
+	reported := map[string]bool{}
+	for _, rel := range []string{"pkg/southbound/gnmi", pkgNbGnmi, pkgNbAdmin, pkgStoreTxV2, pkgStorePropV2, pkgStoreCfgV2, "pkg/store/topo", "pkg/pluginregistry"} {
+		ps, err := c.A.PathsOpt(rel, engine.PathOpts{NoInline: true})
+		if err != nil {
+			o.Undecided(rel, err.Error())
+			continue
+		}
+		for _, p := range ps {
+			for gi := range p.Events {
+				g := &p.Events[gi]
+				if g.Kind != engine.EvGo {
+					continue
+				}
+				o.Site(c.P.Pos(g.Pos))
+				o.Eval(1)
+				// calls before the go statement whose error was not looked at yet
+				for ci := 0; ci < gi; ci++ {
+					ce := &p.Events[ci]
+					if ce.Kind != engine.EvCall || ce.Deferred || ce.Canon == "" {
+						continue
+					}
+					errv := "err(" + ce.Canon + ")"
+					looked := func(from, to int) bool {
+						for k := from; k < to; k++ {
+							e := &p.Events[k]
+							switch e.Kind {
+							case engine.EvCond:
+								if strings.Contains(e.Lit.L, errv) || strings.Contains(e.Lit.R, errv) {
+									return true
+								}
+							case engine.EvReturn:
+								for _, r := range e.Results {
+									if strings.Contains(r, errv) {
+										return true
+									}
+								}
+							}
+						}
+						return false
+					}
+					if looked(ci+1, gi) || !looked(gi+1, len(p.Events)) {
+						continue
+					}
+					key := p.Root.Name() + "|goroutine started before the error of " + ce.CalleeName + " is examined"
+					if !reported[key] {
+						reported[key] = true
+						o.Fail(&engine.Violation{Key: key, Pos: c.P.Pos(g.Pos), Func: p.Root.Name(),
+							Msg: "a goroutine is started here although the error of " + c.Render(ce.Canon) + " (" + c.P.Pos(ce.Pos) + ") is only examined afterwards: the goroutine also runs when that call failed"})
 					}
 				}
 			}
